@@ -10,6 +10,7 @@ import (
 	"strings"
 
 	"pault.ag/go/debian/control"
+	"pault.ag/go/debian/deb"
 	"verifharness/mc"
 )
 
@@ -172,6 +173,58 @@ func addBestScenario(r *mc.Run) {
 			}
 			if len(vs) == 0 {
 				st.Class("agrees")
+			} else {
+				st.Class("differs")
+			}
+		}
+		return true
+	})
+}
+
+// ---- the control file of a .deb after the decoder settings were changed and put back ----
+
+// KnobIn: deb.SetXZMaxDict calls made before a package whose control member is control.tar.xz (preset 6: an 8 MiB
+// dictionary) is loaded. Only histories after which the documented limit in force admits 8 MiB are listed: the control
+// file then decodes to the model like through any other path.
+type KnobIn struct {
+	Calls []uint32
+	Doc   In
+}
+
+func checkKnob(scen string, k KnobIn) []*mc.Violation {
+	defer deb.SetXZMaxDict(0)
+	for _, v := range k.Calls {
+		deb.SetXZMaxDict(v)
+	}
+	vs := check(scen, k.Doc)
+	for _, v := range vs {
+		v.Input, _ = mc.MarshalInput(k)
+		v.Features = append(v.Features, fmt.Sprintf("after SetXZMaxDict%v", k.Calls))
+	}
+	return vs
+}
+
+func addKnobScenario(r *mc.Run) {
+	const scen = "deb-control-after-decoder-settings"
+	base := baselineIn("debcontrol")
+	base.Via = "deb:xz"
+	if _, err := debComp.Compress("xz", []byte("probe")); err != nil {
+		r.Extra[scen] = "not run: no xz encoder available (" + err.Error() + ")"
+		return
+	}
+	const small, mid, big = 1 << 20, 16 << 20, 64 << 20
+	seqs := [][]uint32{nil, {0}, {small, 0}, {small, 0, 0}, {small, big}, {mid}, {small, mid}, {0, small, 0}, {big, 0}, {small, small, 0}}
+	r.Scenario(scen, map[string]interface{}{"histories": seqs, "package": "control.tar.xz written with preset 6 (8 MiB dictionary)", "workers": 1, "note": "the knob is process-wide; no other scenario of this check loads xz members"}, 1, func(_ int, st *mc.Stats) bool {
+		for _, sq := range seqs {
+			st.Evals++
+			st.Traces++
+			st.Nontrivial++
+			vs := checkKnob(scen, KnobIn{sq, base})
+			for _, v := range vs {
+				st.Violate(v)
+			}
+			if len(vs) == 0 {
+				st.Class("decodes-to-the-model")
 			} else {
 				st.Class("differs")
 			}
